@@ -139,8 +139,8 @@ CLAIMED["C13"] = {
 }
 CLAIMED["C17"] = {
     "text": "Time/Frequency: theorem tf_expanded_sem (for every valid MOC the expansion is canonical and covers exactly the cells equal or adjacent to a cell of M, clipped to the "
-            "domain), theorem tf_contracted_range (repaired contraction, range by range), a proved counterexample for the original formula; the definition contracted = not(expanded(not M)) is "
-            "evaluated by the model on every generated case. Space: model of expansion, contraction, external / internal border and splitting over an adjacency relation GIVEN AS DATA, with "
+            "domain), theorems tf_contracted_sem / tf_contracted_dual (repaired contraction on whole MOCs: canonical, keeps exactly the points whose neighbourhood is covered, and EQUALS "
+            "not(expanded(not M)) for every valid MOC), a proved counterexample for the original formula. Space: model of expansion, contraction, external / internal border and splitting over an adjacency relation GIVEN AS DATA, with "
             "theorems for EVERY adjacency and cell set: expansion = cells equal or adjacent to a cell of M; contraction = cells of M no cell outside M is adjacent to; borders; splitting returns "
             "a correct partition (each part = the component of one of its cells: inside the set, closed, every cell reachable; parts cover the set, are pairwise disjoint and separated). The real "
             "operations on HEALPix MOCs (depths 0-2, mixed-depth shapes) are compared with the model over the cdshealpix neighbour lists. A genuine defect (T/F contracted at the domain bounds) "
